@@ -144,11 +144,13 @@ PLAN = {
             'random': suite(COLL_KINDS + MERGE_KINDS, 150, 1500, 10, 100, profiles=('budget',))
                       + [rnd(k, 'small', 'starve', 60, 600) for k in COLL_KINDS + MERGE_KINDS]
                       + [rnd(k, 'real', 'starve', 17, 170) for k in COLL_KINDS + MERGE_KINDS]
-                      + [rnd(k, 'small', 'churn', 30, 300) for k in ['fu', 'fo']]},
+                      + [rnd(k, 'small', 'churn', 30, 300) for k in ['fu', 'fo']]
+                      + [rnd(k, 'real', 'manygroups', 8, 80) for k in ('fu', 'fo', 'mu')]},
     'C14': {'mc': mcs('fub', 'fub_b1', 'fu', 'mb', 'bu'),
             'gen': [dict(GEN[n], tails=['quiet']) for n in ('fub', 'fu', 'mb', 'bu')],
             'random': suite(COLL_KINDS + MERGE_KINDS + ['bu', 'fe'], 200, 2000, 15, 150, profiles=('stale',))
-                      + [rnd('fub', 'real', 'stale_big', 4, 20), rnd('fu', 'real', 'stale_big', 2, 10)]},
+                      + [rnd('fub', 'real', 'stale_big', 4, 20), rnd('fu', 'real', 'stale_big', 2, 10)]
+                      + [rnd(k, 'real', 'manygroups', 10, 100) for k in ('fu', 'fo', 'mu')]},
     'C15': {'mc': mcs('fub', 'fub_init', 'fob', 'fo', 'fu', 'mb'),
             'gen': gens('fub', 'fub_init', 'fob', 'fu'),
             'random': suite(COLL_KINDS + ['mb', 'mu'], 400, 4000, 40, 400)},
